@@ -329,8 +329,12 @@ def judge(c, w, p, key, kinds):
         if c["r"].startswith("uiHb") and kind == "exit" and o in ("read", "write", "timeout"):
             ok = True     # the link is expected to drop there (see C11/C13); with a read
             #               error or a time-out the device has acted on the command
-        elif last is not None and success_ops is not None:
-            ok = success_ops.get(code) == last[2]
+        elif success_ops is not None:
+            # the device reported that success somewhere in this request (a manager may go on
+            # with exchanges of its own afterwards, e.g. a read-only query for its log)
+            ins = {"sign": 0x02, "adv": 0x10, "anc": 0x30, "reset": 0x21}[fam]
+            ok = any(a is not None and len(a) > 2 and a[1] == ins and
+                     a[2] == success_ops.get(code) for k_, a in w.answers if k_ >= base)
         elif last is not None and success_ops is None and isinstance(o, list):
             ok = True     # commands without a success opcode: any well-formed answer counts
         if not ok:
